@@ -175,6 +175,48 @@ def purity(ctx: Ctx) -> None:
     ctx.expect("R-ORDER", cp, "every source property is considered", not skips, "", "", node=l)
 
 
+MUTATORS = ("append", "extend", "insert", "pop", "popitem", "clear", "update", "setdefault", "remove", "sort", "reverse", "move_to_end", "__setitem__", "__delitem__", "add", "discard")
+
+
+def global_tables_immutable(ctx: Ctx, modules=("simfile.convert",)) -> None:
+    """R-PURE: a module-level table (or a local alias of one) is never the receiver of a store or a mutating call."""
+    p = ctx.p
+    n = 0
+    for f in p.nontest_functions():
+        if f.module.name not in modules:
+            continue
+        mod = f.module
+        tables = {name for name, node in mod.top.items() if isinstance(node, (ast.Assign, ast.AnnAssign)) and isinstance(node.value, (ast.Dict, ast.List, ast.Set, ast.Call))
+                  and not isinstance(node.value, ast.Call) or (isinstance(node, (ast.Assign, ast.AnnAssign)) and isinstance(node.value, ast.Call)
+                                                                and ast.unparse(node.value.func) in ("defaultdict", "dict", "list", "set", "OrderedDict"))}
+        loc = locals_of(f)
+        alias = {}
+        for name, bs in loc.b.items():
+            for b in bs:
+                if b.kind == "assign" and isinstance(b.value, ast.Name) and b.value.id in tables and b.value.id not in loc.b:
+                    alias[name] = b.value.id
+        bad = []
+        for node in body_walk(f.node):
+            root = None
+            what = None
+            if isinstance(node, ast.Call) and isinstance(node.func, ast.Attribute) and node.func.attr in MUTATORS:
+                root, what = node.func.value, src(node, 80)
+            elif isinstance(node, (ast.Assign, ast.AugAssign, ast.Delete)):
+                for t in (node.targets if isinstance(node, (ast.Assign, ast.Delete)) else [node.target]):
+                    if isinstance(t, ast.Subscript):
+                        root, what = t.value, src(node, 80)
+            if root is None:
+                continue
+            while isinstance(root, (ast.Subscript, ast.Attribute)):
+                root = root.value
+            if isinstance(root, ast.Name) and ((root.id in tables and root.id not in loc.b) or root.id in alias):
+                bad.append(f"{what} mutates {alias.get(root.id, root.id)}")
+        n += 1
+        ctx.expect("R-PURE", f, f"{f.qualname} leaves the module-level tables untouched", not bad, "", "; ".join(bad) +
+                   ": the change persists into every later call (a caller's overrides leak into the defaults)", node=f.node)
+    ctx.floor("functions checked for table mutation", n, 6)
+
+
 def ssc_target_tables(ctx: Ctx) -> None:
     """C16.3: nothing is invalid when the target is SSC."""
     inv = ctx.p.const(CV, "INVALID_PROPERTIES")
